@@ -51,6 +51,10 @@ ASSUMPTIONS = [
     "closer are counted, not judged; every comparison is relative to the coordinates/chords/radii of the transformed geometry",
     "default origins (origin=None) are used only for classes that inherit ElementBase.rotate/scale (documented: the "
     "entity's center, read through the public .center just before the step) and for mirror (documented: [0, 0, 0])",
+    "an origin may be one of the entity's own stored points, passed as the very array the library hands out (Point.position, "
+    "a row of a curve's point array); the reference map uses its value when the call is made, such a step is never "
+    "placed after another element of the same transform([...]) list, and that argument is exempt from the "
+    "arguments-untouched check (it belongs to the entity)",
     "block numbering after mirror: kept or bottom/top swapped are both accepted (handedness of the result is C11's "
     "business); return values of the methods are not used",
     "a default origin in the middle of a transform([...]) list is the image of the center read before the call under "
@@ -77,7 +81,7 @@ def base_facts(ent: x.Ent, tkind: str, case) -> dict:
 
 def tf_facts(facts: dict, ap: x.Applied) -> dict:
     out = dict(facts)
-    out.update(parity=ap.parity, mirrors=ap.mirrors, normals_unit=ap.normals_unit, default_origin=ap.default_origin, ratio=ap.s)
+    out.update(parity=ap.parity, mirrors=ap.mirrors, normals_unit=ap.normals_unit, default_origin=ap.default_origin, own_origin=ap.own_origin, ratio=ap.s)
     return out
 
 
@@ -387,7 +391,7 @@ def check_curve(which, tkind):
 def helper_case(draw):
     k = draw(st.sampled_from(["rotate", "scale", "mirror"]))
     t = draw(x.tf_one(k, False))
-    if t["origin"] is None:
+    if t["origin"] is None or isinstance(t["origin"], dict):
         t["origin"] = [0.0, 0.0, 0.0]
     return {"point": draw(x.point3(10)), "t": t}
 
